@@ -37,8 +37,11 @@ func vURI(host, path string) *fasthttp.URI {
 func vPast() time.Time   { return time.Date(2001, 1, 1, 0, 0, 0, 0, time.UTC) }
 func vFuture() time.Time { return time.Date(2101, 1, 1, 0, 0, 0, 0, time.UTC) }
 
-// VH_C18_jar: a history of k operations followed by a Get for every (host, path). case = k (1..4).
-func VH_C18_jar(k int) {
+// VH_C18_jar: a history of k operations with a Get for every (host, path) after each operation
+// (case = k) or only after the last one (case = 10+k: expired cookies pile up before the first lookup).
+func VH_C18_jar(caseID int) {
+	k := caseID % 10
+	onlyAtEnd := caseID >= 10
 	jar := &CookieJar{}
 	model := map[vJarKey]*vJarVal{}
 	seq := 0
@@ -128,7 +131,9 @@ func VH_C18_jar(k int) {
 			fasthttp.ReleaseResponse(resp)
 		}
 		model[vJarKey{h, key, p}] = &vJarVal{value: val, expired: exp == 1, seq: seq}
-		check("after-step")
+		if !onlyAtEnd || step == k-1 {
+			check("after-step")
+		}
 	}
 	vReach("checked")
 }
